@@ -377,6 +377,63 @@ def check(run):
             run.count('outcome_' + o['kind'] + ('_' + o.get('err', '') if o['kind'] == 'refused' else ''))
     check_refused_start(run)
     check_stop_with_closed_loop(run)
+    check_stop_by_supporting_coroutine(run)
+
+
+def check_stop_by_supporting_coroutine(run):
+    """'while the circuit is shutting down it raises EdzedInvalidState and delivers nothing': the stop
+    ordered by edzed.run() itself when one of its supporting coroutines has returned. Another
+    supporting coroutine (cancelled by run(), still cleaning up) sends external events in the loop
+    iterations that follow."""
+    from . import vloop
+    obs = dict(running=None, sends=[], output=None, run=None, harness=None)
+
+    async def main(loop):
+        edzed.reset_circuit()
+        circuit = edzed.get_circuit()
+        inp = edzed.Input('inp', initdef='initial')
+        ext = edzed.ExtEvent(inp, source='cleanup')
+
+        async def short_lived():
+            await circuit.wait_init()
+            obs['running'] = ext.send('running')
+            # returning makes edzed.run() stop the simulation and cancel the other coroutine
+
+        async def with_cleanup():
+            try:
+                await asyncio.sleep(10)
+            except asyncio.CancelledError:
+                for k in range(1, 4):
+                    await asyncio.sleep(0)          # run() has ordered the stop in the meantime
+                    try:
+                        obs['sends'].append([k, circuit.is_ready(), 'delivered', repr(ext.send(f'late{k}'))])
+                    except Exception as err:     # noqa
+                        obs['sends'].append([k, circuit.is_ready(), 'refused', type(err).__name__])
+                raise
+        try:
+            obs['run'] = ['returned', repr(await edzed.run(short_lived(), with_cleanup(), catch_sigterm=False))]
+        except BaseException as err:             # noqa
+            obs['run'] = ['raised', type(err).__name__]
+        obs['output'] = inp.output
+    try:
+        vloop.run_virtual(main, wall_limit_s=10.0)
+    except BaseException as err:                  # noqa
+        obs['harness'] = repr(err)[:200]
+    finally:
+        edzed.reset_circuit()
+    run.add_case(dict(stop_by_supporting_coroutine=True), True)
+    run.count('stop_by_supporting_coroutine')
+    ok = (obs['harness'] is None and obs['running'] is True and obs['output'] == 'running'
+          and obs['sends'] == [[k, False, 'refused', 'EdzedInvalidState'] for k in range(1, 4)]
+          and obs['run'] == ['returned', 'None'])
+    run.add_obligation(ok)
+    if not ok:
+        run.violation('monitor', dict(case=dict(stop_by_supporting_coroutine=True), observed=obs),
+                      f"edzed.run(short_lived(), with_cleanup()): the first coroutine returned, run() ordered the "
+                      f"stop; external events sent by the second one 1, 2 and 3 loop iterations after its "
+                      f"cancellation: {obs['sends']} (expected [k, is_ready()=False, 'refused', 'EdzedInvalidState']), "
+                      f"output of the destination {obs['output']!r} (expected 'running'), run() {obs['run']}; "
+                      f"harness: {obs['harness']}", clause='stop_by_supporting_coroutine', concrete=True)
 
 
 def check_stop_with_closed_loop(run):
@@ -501,4 +558,6 @@ def replay(run, path):
         return common.directed_replay(run, path, lambda: check_refused_start(run))
     if isinstance(case, dict) and 'stop_with_closed_loop' in case:
         return common.directed_replay(run, path, lambda: check_stop_with_closed_loop(run))
+    if isinstance(case, dict) and 'stop_by_supporting_coroutine' in case:
+        return common.directed_replay(run, path, lambda: check_stop_by_supporting_coroutine(run))
     return common.std_replay(run, C14(), path)
